@@ -246,6 +246,16 @@ namespace occa {
             state.pushOperator(&opToken);
           }
           else if (opToken.opType() & operatorType::pairEnd) {
+            if (state.scopedStates.size() < 2) {
+              // The expression holds a closing pair without its opening pair
+              state.hasError = true;
+              std::stringstream ss;
+              ss << "Could not find an opening '"
+                 << ((pairOperator_t*) opToken.op)->pairStr
+                 << '\'';
+              opToken.printError(ss.str());
+              return;
+            }
             state.pushOperator(&opToken);
             state.popPair();
             closePair();
